@@ -26,6 +26,7 @@ EXPLANATION = (
 )
 EXPLANATION += " R09.5: a resource found by resolving a name is sanitised by a project test only together with a not-ignored (or equal-to-the-caller's) edge on every path."
 EXPLANATION += ' R09.11: a function that remembers its answer under a key reads, in the computation of the remembered value, nothing of its parameters that the key does not contain (followed into the helpers it calls).'
+EXPLANATION += " R09.12: the resource of an object known only as an AbstractModule (builtin modules have none) is compared with None before use."
 ASSUMPTIONS = [
     "callee resolution without a type checker: see DESIGN.md section 2 (E2)",
     "resources handed in by the caller (constructor/get_changes parameters) are the caller's responsibility (CALLER provenance is accepted)",
@@ -937,6 +938,62 @@ def _optional_module_rule(ctx, res) -> None:
 
 def check(ctx, res) -> None:
     _check_body(ctx, res)
+    module_without_file_rule(ctx, res, "R09.12")
     from .common import memo_key_rule
 
     memo_key_rule(ctx, res, "R09.11", ("rope.base.resources", "rope.base.project", "rope.base.fscommands", "rope.base.libutils"))
+
+
+def module_without_file_rule(ctx, res, rule: str) -> None:
+    """R09.12 (= R01.21): `AbstractModule` is also the class of builtin and extension modules (`sys`, `math`), whose
+    `get_resource()` is None -- only PyModule / PyPackage always have a file.  Where a refactoring knows its object only as an
+    AbstractModule (an `isinstance(..., AbstractModule)` test, directly or through a one-line predicate, or a `case
+    AbstractModule()` pattern) and takes the object's resource, the resource is compared with None before it is used; handed on
+    as it is, the request ends in AttributeError ('NoneType' object has no attribute 'is_folder') instead of rope's
+    refactoring error."""
+    from . import common
+    idx = ctx.idx
+    n = 0
+
+    def is_abstract_test(t) -> bool:
+        return any(isinstance(c, ast.Call) and call_name(c) == "isinstance" and len(c.args) == 2 and any(
+            (dotted(e) or "").split(".")[-1] == "AbstractModule" for e in (c.args[1].elts if isinstance(c.args[1], ast.Tuple) else [c.args[1]])) for c in ast.walk(t))
+
+    for f in sorted(idx.functions.values(), key=lambda f: f.qualname):
+        if not f.unit.modname.startswith("rope.refactor") or f.parent is not None:
+            continue
+        if not any(isinstance(c, ast.Call) and call_name(c) == "get_resource" for c in ast.walk(f.node)):
+            continue
+        node = common.inlined(idx, f)
+        regions = []  # statement lists in which the object is known only as an AbstractModule
+        for x in ast.walk(node):
+            if isinstance(x, ast.If) and is_abstract_test(x.test):
+                regions.append(x.body)
+            if isinstance(x, ast.Match):
+                for case in x.cases:
+                    if any(isinstance(p, ast.MatchClass) and (dotted(p.cls) or "").split(".")[-1] == "AbstractModule" for p in ast.walk(case.pattern)):
+                        regions.append(case.body)
+        for body in regions:
+            for st in body:
+                for c in ast.walk(st):
+                    if not (isinstance(c, ast.Call) and call_name(c) == "get_resource" and not c.args):
+                        continue
+                    n += 1
+                    # the statement that holds the call: an assignment to a name that is None-tested somewhere in the function, or not
+                    holder = next((s for s in ast.walk(st) if isinstance(s, ast.Assign) and s.value is c and len(s.targets) == 1 and isinstance(s.targets[0], ast.Name)), None)
+                    tested = False
+                    if holder is not None:
+                        v = holder.targets[0].id
+                        for t in ast.walk(node):
+                            if isinstance(t, ast.Compare) and isinstance(t.left, ast.Name) and t.left.id == v and len(t.ops) == 1 and isinstance(t.ops[0], (ast.Is, ast.IsNot)) \
+                                    and isinstance(t.comparators[0], ast.Constant) and t.comparators[0].value is None:
+                                tested = True
+                            if isinstance(t, (ast.If, ast.While, ast.IfExp)) and ((isinstance(t.test, ast.Name) and t.test.id == v) or (
+                                    isinstance(t.test, ast.UnaryOp) and isinstance(t.test.op, ast.Not) and isinstance(t.test.operand, ast.Name) and t.test.operand.id == v)):
+                                tested = True
+                    res.add(rule, f"{f.qualname.split('.', 2)[-1]}|resource-of-an-abstract-module-is-none-tested#{n}", tested, f"{f.unit.rel}:{c.lineno}",
+                            "the resource of an object known only as an AbstractModule is compared with None before use" if tested else
+                            f"`{ast.unparse(c)[:60]}` is taken from an object known only to be an AbstractModule and used without a None test: for a builtin or extension module "
+                            "(`import sys` ... the request at `sys`) the resource is None and the refactoring ends in AttributeError instead of a RefactoringError",
+                            function=f.qualname)
+    res.floor(rule, "resources taken from objects known only as AbstractModule", n, 1)
